@@ -233,6 +233,32 @@ static void sweep_ntype(Ctx<Cfg>& c, const std::vector<uintptr_t>& bases, mon::R
   }
 }
 
+// 128-bit index types (integer types of the GNU dialect, where std::is_integral_v<__int128> holds and the library's "numeric
+// types" gate lets them through): plain operands only - they have no sandbox representation
+#if defined(__SIZEOF_INT128__) && !defined(__STRICT_ANSI__)
+#  define C05_HAVE_INT128 1
+namespace ref { template<> struct tname<__int128> { static constexpr const char* v = "__int128"; }; template<> struct tname<unsigned __int128> { static constexpr const char* v = "unsigned __int128"; }; }
+template<typename Cfg, typename T, typename N>
+static void sweep_ntype_wide(Ctx<Cfg>& c, const std::vector<uintptr_t>& bases, mon::Rng& rng)
+{
+  constexpr size_t s = gsize<Cfg, T>::v;
+  for (uintptr_t p : bases) {
+    auto cand = n_candidates(p, c.base, c.size, s, rng, mon::tier(4, 64));
+    // and the same candidates moved beyond 64 bits: the low 64 bits alone would designate an address inside the sandbox
+    size_t n0 = cand.size();
+    for (size_t i = 0; i < n0; i++)
+      for (int b : { 64, 65, 96 }) { cand.push_back(cand[i] + (static_cast<i128>(1) << b)); cand.push_back(cand[i] - (static_cast<i128>(1) << b)); }
+    for (i128 v : cand) {
+      if (std::is_unsigned_v<N> && v < 0) continue;
+      N n = static_cast<N>(v);
+      mon::distinct(mon::mix(mon::mix(std::hash<std::string>()(pname<T>::n()), std::hash<std::string>()(ref::name<N>())), mon::mix(p - c.base, mon::mix((uint64_t)v, (uint64_t)(v >> 64)))));
+      for (int op : { ADD, SUB, ADDEQ, SUBEQ, INDEX, ADDR_INDEX }) judge<Cfg, T, N, NPLAIN>(c, static_cast<OpK>(op), p, n);
+    }
+  }
+  mon::hit("index-types-wider-than-a-pointer");
+}
+#endif
+
 template<typename Cfg, typename T>
 static void sweep_pointee(Ctx<Cfg>& c, mon::Rng& rng, bool exhaustive_range)
 {
@@ -254,6 +280,10 @@ static void sweep_pointee(Ctx<Cfg>& c, mon::Rng& rng, bool exhaustive_range)
   sweep_ntype<Cfg, T, unsigned int>(c, bases, rng);
   sweep_ntype<Cfg, T, short>(c, bases, rng);
   sweep_ntype<Cfg, T, unsigned char>(c, bases, rng);
+#ifdef C05_HAVE_INT128
+  sweep_ntype_wide<Cfg, T, __int128>(c, bases, rng);
+  sweep_ntype_wide<Cfg, T, unsigned __int128>(c, bases, rng);
+#endif
   if (mon::thorough()) {
     sweep_ntype<Cfg, T, signed char>(c, bases, rng);
     sweep_ntype<Cfg, T, char>(c, bases, rng);
